@@ -138,6 +138,23 @@ def recScopes (D : Data) (e : IREdge) (r : Recursive) (v : Option VertexId) : Li
   | none => [none]
   | some x => (Spec.reach D e.name e.params r.depth x).map some
 
+/-- The incoming context of a recursion, with the `None` the first step pushes on the suspended
+stack when there is no active vertex. -/
+def recPrep (c : Ctx) : Ctx :=
+  if c.active.isNone then { c with suspended := none :: c.suspended } else c
+
+theorem recPrep_vertices (c : Ctx) : (recPrep c).vertices = c.vertices := by
+  unfold recPrep; split <;> rfl
+
+theorem recPrep_ext (c : Ctx) : Ext c (recPrep c) [] := by
+  refine ⟨[], by simp [recPrep_vertices], rfl, ?_, ?_, ?_, ?_⟩ <;> (unfold recPrep; split <;> rfl)
+
+theorem recInit_eq (e : IREdge) (c : Ctx) {v : Option VertexId}
+    (h : c.vertexAt? e.fromVid = some v) : recInit e c = .ok { recPrep c with active := v } := by
+  have hat : (recPrep c).vertexAt? e.fromVid = some v := by
+    unfold Engine.Ctx.vertexAt? at h ⊢; rw [recPrep_vertices]; exact h
+  exact activate_of_vertexAt hat
+
 /-- A `@recurse` edge stage on one context: every vertex of the declarative `reach`, in order (or
 the missing scope once), then the entry into the destination vertex. -/
 theorem stageO_rec (W : World) (e : IREdge) (r : Recursive) (c : Ctx) {fromV toV : IRVertex}
@@ -149,31 +166,26 @@ theorem stageO_rec (W : World) (e : IREdge) (r : Recursive) (c : Ctx) {fromV toV
       flatMapO (fun s => (enterVertex W.env W.comp toV [{ c1 with active := s }]).toOption)
         (recScopes W.D e r v) := by
   have hhom := fun l => Hom.eq_flatMapO (enterVertex_hom W.env W.comp toV) (by simp [h0]) l
-  simp only [stageO, expandEdge, hf, ht, hrec, expandRecursive, mapR_single, recInit]
+  have hexp : expandEdge W.env W.comp e [c] =
+      (recFinish W.env e r fromV toV [{ recPrep c with active := v }]).bind
+        (enterVertex W.env W.comp toV) := by
+    simp only [expandEdge, hf, ht, hrec, expandRecursive, mapR_single, recInit_eq e c h, R.bind_ok]
+  simp only [stageO, hexp]
   cases v with
   | none =>
     have hca := hact rfl
     refine ⟨c, Ext.refl c, ?_⟩
-    have hat : ({ c with suspended := none :: c.suspended } : Ctx).vertexAt? e.fromVid = some none := h
-    simp only [hca, Option.isNone_none, if_true, activate_of_vertexAt hat, R.bind_ok]
-    rw [recFinish_none W e r fromV toV _ rfl c.suspended rfl, R.bind_ok, hhom]
+    have hs : ({ recPrep c with active := none } : Ctx).suspended = none :: c.suspended := by
+      simp [recPrep, hca]
+    rw [recFinish_none W e r fromV toV _ rfl c.suspended hs, R.bind_ok, hhom]
     simp only [recScopes, flatMapO_singleton]
-    congr 3
-    cases c; simp_all
+    have : ({ ({ recPrep c with active := none } : Ctx) with active := none, suspended := c.suspended } : Ctx) =
+        { c with active := none } := by
+      simp [recPrep, hca]
+    rw [this]
   | some x =>
-    let c1 : Ctx := if c.active.isNone then { c with suspended := none :: c.suspended } else c
-    have hc1v : c1.vertices = c.vertices := by
-      simp only [c1]; split <;> rfl
-    have hext : Ext c c1 [] := by
-      refine ⟨[], by simp [hc1v], rfl, ?_, ?_, ?_, ?_⟩ <;> (simp only [c1]; split <;> rfl)
-    refine ⟨c1, hext, ?_⟩
-    have hat : c1.vertexAt? e.fromVid = some (some x) := by
-      unfold Engine.Ctx.vertexAt? at h ⊢; rw [hc1v]; exact h
-    show ((((if c.active.isNone then { c with suspended := none :: c.suspended } else c).activate
-      e.fromVid).bind fun y => R.ok [y]).bind _).bind _ |>.toOption = _
-    rw [show (if c.active.isNone then { c with suspended := none :: c.suspended } else c) = c1 from rfl,
-      activate_of_vertexAt hat, R.bind_ok, R.bind_ok,
-      recFinish_some W e r fromV toV _ x rfl hd hconv, R.bind_ok, hhom]
+    refine ⟨recPrep c, recPrep_ext c, ?_⟩
+    rw [recFinish_some W e r fromV toV _ x rfl hd hconv, R.bind_ok, hhom]
     simp only [recScopes, flatMapO_map]
 
 end TF.InterpSpec
